@@ -27,7 +27,7 @@ def get_latest_PMS_eapi():
 
 
 _valid_EAPI_regex = regexp(r"^[A-Za-z0-9_][A-Za-z0-9+_.-]*$")
-_valid_use_flag = regexp(r"^[A-Za-z0-9][A-Za-z0-9+_@-]*$")
+_valid_use_flag = regexp(r"^[A-Za-z0-9][A-Za-z0-9+_@-]*\Z")
 
 eapi_optionals = ImmutableDict(
     {
